@@ -30,6 +30,7 @@ type Case struct {
 	K      int      `json:"k"`
 	Redef  int      `json:"redef_index"` // index into Defs of a defun that is redefined after the K evaluations (-1: none)
 	NewDef string   `json:"redef_form"`
+	After  string   `json:"after_form,omitempty"` // evaluated once after the redefinition and the last evaluation of main
 	Perms  [][]int  `json:"perms"` // the definition orders to run (all of them for <= 4 definitions)
 }
 
@@ -113,7 +114,19 @@ func genCase(rt *rapid.T) Case {
 	if rapid.IntRange(0, 2).Draw(rt, "redef") == 0 {
 		j := rapid.IntRange(0, nfun-1).Draw(rt, "redefwhich")
 		c.Redef = firstFun + j
-		c.NewDef = r.Print(g.DefunIndexed(j, sigs))
+		if rapid.Bool().Draw(rt, "redef-lambda-list") {
+			// the new definition has another lambda list (last parameter optional); a form read after the
+			// redefinition calls it with one argument less, which the first definition would have rejected
+			c.NewDef = r.Print(g.DefunIndexedOpt(j, sigs))
+			g.SetCallable(sigs)
+			call := []string{sigs[j].Name}
+			for k := 0; k < sigs[j].Arity-1; k++ {
+				call = append(call, r.Print(g.Expr(proggen.TInt, nil, 3)))
+			}
+			c.After = "(list (" + strings.Join(call, " ") + "))"
+		} else {
+			c.NewDef = r.Print(g.DefunIndexed(j, sigs))
+		}
 	}
 	all := permutations(len(c.Defs))
 	if len(c.Defs) <= 3 {
@@ -173,6 +186,10 @@ func reference(c Case, perm []int) runResult {
 	if c.Redef >= 0 {
 		m.Run(parse(c.NewDef))
 		evalMain()
+		if c.After != "" {
+			main = parse(c.After)
+			evalMain()
+		}
 	}
 	return out
 }
@@ -272,6 +289,17 @@ func slipRun(c Case, perm []int, mode string) (out runResult) {
 			return
 		}
 		evalMain()
+		if c.After != "" && out.err == "" {
+			ev.ResetTrace()
+			o := evalTop(rn(c.After))
+			if o.Kind != ev.Value {
+				out.err = "after the redefinition: " + o.String()
+				out.results = append(out.results, "?")
+			} else {
+				out.results = append(out.results, sx.Text(o.Val))
+			}
+			out.traces = append(out.traces, ev.TraceString())
+		}
 	}
 	return
 }
@@ -288,6 +316,9 @@ func describe(c Case, perm []int, mode string) string {
 	fmt.Fprintf(&sb, "  main (evaluated %d times): %s\n", c.K, c.Main)
 	if c.Redef >= 0 {
 		sb.WriteString("  then redefine: " + c.NewDef + "\n")
+		if c.After != "" {
+			sb.WriteString("  then evaluate: " + c.After + "\n")
+		}
 	}
 	return sb.String()
 }
